@@ -96,6 +96,97 @@ def gen_calls(family, tier, r):
     return calls
 
 
+GOOD_HASH = "kABc9xjQBSwgV2WfM02/AV8rQhEpTzRjn+fYC1x3ab0hRul9S9EkxGS/GMckLQjn0gYEEX3ISmXDfetwTUwhpQ"
+GOOD_HASH2 = "xVfVq4pvFosvOQb0IVaPMkK22u0ZF2Ki7XB9yRsGbnEbL6WXhQCdpOwDV62HZ0MS5RjqmfrQJT7lV3aohUa3uw"
+
+
+def toml_str(s):
+    return '"' + s.replace("\\", "\\\\").replace('"', '\\"') + '"'
+
+
+def gen_config_case(r):
+    """one configuration + CLI vector, rendered as TOML (for MainConfig::new) and as the model call"""
+    def hashv():
+        x = r.random()
+        if x < 0.93:
+            return r.choice([GOOD_HASH, GOOD_HASH2])
+        return r.choice([GOOD_HASH[:-1], GOOD_HASH + "A", GOOD_HASH[:-1] + "x", GOOD_HASH[:-1] + "B", "short",
+                         GOOD_HASH.replace("/", "-"), "", GOOD_HASH[:-2] + "=="])
+    def uname():
+        if r.random() < 0.9:
+            return r.choice(["matszpk", "lucas", "ala", "é", "n" * 200])
+        return r.choice(["a.b", "#chan", "a,b", "a:b", "", "a b", "x!y", "n" * 201])
+    name = r.choice(["irc.test", "irci.localhost", "a.b.c"]) if r.random() < 0.88 else r.choice(["nodot", ""])
+    network = r.choice(["Net", "IRCnet", ""])
+    listen = r.choice(["127.0.0.1", "0.0.0.0", "::1"])
+    port = r.choice([6667, 6697, 1, 65535])
+    pw = hashv() if r.random() < 0.4 else None
+    dns = r.random() < 0.3
+    tls = ("cert.crt", "key.crt") if r.random() < 0.2 else None
+    opers = [(uname(), hashv(), r.choice([None, "*!*@*"])) for _ in range(r.choice([0, 0, 1, 2]))]
+    users = []
+    for _ in range(r.choice([0, 0, 1, 2])):
+        up = None
+        if r.random() < 0.6:
+            up = hashv() if r.random() < 0.95 else r.choice(["abc", "12345"])
+        users.append((uname(), uname(), up, r.choice([None, "*!*@localhost"])))
+    chans = [(r.choice(["#a", "&b", "#ok"]) if r.random() < 0.9 else r.choice(["nochan", "#x,y", "", "#a:b"]))
+             for _ in range(r.choice([0, 0, 1, 2]))]
+    cli = {"listen": r.choice([None, None, "10.0.0.1"]), "port": r.choice([None, None, 7000]),
+           "name": r.choice([None, None, "cli.name", "clinodot"]), "network": r.choice([None, None, "CliNet"]),
+           "log": r.choice([None, None, "x.log"]), "dns": r.random() < 0.2,
+           "cert": None, "key": None}
+    x = r.random()
+    if x < 0.15:
+        cli["cert"], cli["key"] = "c.pem", "k.pem"
+    elif x < 0.22:
+        cli["cert"] = "c.pem"
+    elif x < 0.29:
+        cli["key"] = "k.pem"
+    t = []
+    t.append("name = %s" % toml_str(name))
+    t.append('admin_info = "a"\ninfo = "i"\nmotd = "m"')
+    t.append("listen = %s" % toml_str(listen))
+    t.append("port = %d" % port)
+    t.append("network = %s" % toml_str(network))
+    if pw is not None:
+        t.append("password = %s" % toml_str(pw))
+    t.append("ping_timeout = 100\npong_timeout = 30")
+    t.append("dns_lookup = %s" % ("true" if dns else "false"))
+    t.append('log_level = "INFO"')
+    if tls:
+        t.append("[tls]\ncert_file = %s\ncert_key_file = %s" % (toml_str(tls[0]), toml_str(tls[1])))
+    t.append("[default_user_modes]\ninvisible = false\noper = false\nlocal_oper = false\nregistered = false\nwallops = false")
+    for (n, p, m) in opers:
+        t.append("[[operators]]\nname = %s\npassword = %s" % (toml_str(n), toml_str(p)) + ("\nmask = %s" % toml_str(m) if m else ""))
+    for (n, k, p, m) in users:
+        t.append("[[users]]\nname = %s\nnick = %s" % (toml_str(n), toml_str(k)) + ("\npassword = %s" % toml_str(p) if p is not None else "")
+                 + ("\nmask = %s" % toml_str(m) if m else ""))
+    for c in chans:
+        t.append("[[channels]]\nname = %s\n[channels.modes]\ninvite_only = false\nmoderated = false\nsecret = false\nprotected_topic = false\nno_external_messages = false" % toml_str(c))
+    toml = "\n".join(t) + "\n"
+    args = []
+    for flag, key in (("-l", "listen"), ("-p", "port"), ("-n", "name"), ("-N", "network"), ("-L", "log"), ("-C", "cert"), ("-K", "key")):
+        if cli[key] is not None:
+            args += [flag, str(cli[key])]
+    if cli["dns"]:
+        args.append("-d")
+    def o(x):
+        return "-" if x is None else "+" + esc(str(x))
+    def rec(parts):
+        return "|".join(parts)
+    from .canon import esc_list
+    model = ["configm", esc(name), esc(network), esc(listen), str(port), o(pw), "1" if dns else "0",
+             "-" if not tls else "+" + esc(rec(tls)),
+             esc_list([rec([n, p, "-" if m is None else "+" + m]) for (n, p, m) in opers]),
+             esc_list([rec([n, k, "-" if p is None else "+" + p, "-" if m is None else "+" + m]) for (n, k, p, m) in users]),
+             esc_list(chans),
+             o(cli["listen"]), o(cli["port"]), o(cli["name"]), o(cli["network"]), o(cli["log"]),
+             "1" if cli["dns"] else "0", o(cli["cert"]), o(cli["key"])]
+    impl = "config " + esc(toml) + (" " + " ".join(esc(a) for a in args) if args else "")
+    return impl, " ".join(model)
+
+
 def fmt_call(c):
     name, args = c
     if name == "codec" or name == "chum":
@@ -106,7 +197,74 @@ def fmt_call(c):
 FAMILIES = {
     "C13": ["msg", "cmd", "render", "validators", "codec"],
     "C14": ["mw", "norm"],
+    "C20": ["config", "hash"],
 }
+
+
+def run_config_family(tier, r, res):
+    """MainConfig::new on generated TOML + CLI vectors vs Config.loadConfig"""
+    n = 400 if tier == "quick" else 6000
+    cases = [gen_config_case(r) for _ in range(n)]
+    pi, pm = runner.WORK + "/fn-C20-config-impl.txt", runner.WORK + "/fn-C20-config-model.txt"
+    open(pi, "w").write("\n".join(c[0] for c in cases) + "\n")
+    open(pm, "w").write("\n".join(c[1] for c in cases) + "\n")
+    ri = runner.sh([runner.HARNESS, "fn", pi], timeout=1800)
+    rm = runner.sh([runner.MODEL, "fn", pm], timeout=1800)
+    if ri.returncode != 0 or rm.returncode != 0:
+        raise runner.BuildError("config fn mode failed: %s %s" % (ri.stderr[-500:], rm.stderr[-500:]))
+    oi, om = ri.stdout.split("\n"), rm.stdout.split("\n")
+    bad = 0
+    kinds = {"Ok": 0, "Err": 0}
+    for c, a, b in zip(cases, oi, om):
+        kinds[a.split(" ")[0]] = kinds.get(a.split(" ")[0], 0) + 1
+        if a != b:
+            bad += 1
+            if bad <= 3:
+                res["mismatches"].append({"family": "config", "call": c[1], "toml": unesc(c[0].split(" ")[1])[:1500],
+                                          "impl": a, "model": b, "oracle_fail": False, "detail": a[:40]})
+    res["families"]["config"] = {"calls": n, "mismatches": bad, "outcomes": kinds}
+    res["calls"] += n
+    res["samples"].append({"fn": "config", "model_call": cases[0][1], "result": oi[0]})
+
+
+def run_hash_family(tier, r, res):
+    """argon2 '-g' hash accepts exactly the password it was generated from (implementation-only oracle)"""
+    n = 12 if tier == "quick" else 120
+    pws = ["".join(r.choice("abcXYZ019 é!") for _ in range(r.choice([1, 4, 9, 20]))) for _ in range(n)]
+    p1 = runner.WORK + "/fn-C20-hash.txt"
+    open(p1, "w").write("\n".join("hash " + esc(p) for p in pws) + "\n")
+    r1 = runner.sh([runner.HARNESS, "fn", p1], timeout=1800)
+    hashes = [unesc(x) for x in r1.stdout.split("\n") if x]
+    calls = []
+    for p, h in zip(pws, hashes):
+        calls.append(("verify", p, h, "true"))
+        calls.append(("verify", p + "x", h, "false"))
+        calls.append(("verify", p[:-1], h, "false"))
+        calls.append(("verify", p.swapcase() if p.swapcase() != p else p + " ", h, "false"))
+        calls.append(("vhash", h, None, "true"))
+    p2 = runner.WORK + "/fn-C20-verify.txt"
+    open(p2, "w").write("\n".join(("verify %s %s" % (esc(c[1]), esc(c[2]))) if c[0] == "verify" else "vhash " + esc(c[1])
+                                    for c in calls) + "\n")
+    r2 = runner.sh([runner.HARNESS, "fn", p2], timeout=1800)
+    # the model agrees on the shape of every generated hash
+    p3 = runner.WORK + "/fn-C20-vhash-model.txt"
+    open(p3, "w").write("\n".join("vhash " + esc(h) for h in hashes) + "\n")
+    r3 = runner.sh([runner.MODEL, "fn", p3], timeout=600)
+    out = r2.stdout.split("\n")
+    bad = 0
+    for c, a in zip(calls, out):
+        if a != c[3]:
+            bad += 1
+            if bad <= 3:
+                res["mismatches"].append({"family": "hash", "call": list(c[:3]), "impl": a, "model": c[3],
+                                          "oracle_fail": True, "detail": a[:40]})
+    for h, a in zip(hashes, r3.stdout.split("\n")):
+        if a != "true":
+            bad += 1
+            res["mismatches"].append({"family": "hash", "call": ["vhash-model", h], "impl": "true", "model": a,
+                                      "oracle_fail": False, "detail": "model rejects generated hash"})
+    res["families"]["hash"] = {"calls": len(calls) + len(hashes), "mismatches": bad}
+    res["calls"] += len(calls) + len(hashes)
 
 
 def run(pid, families, tier, seed, log):
@@ -115,6 +273,12 @@ def run(pid, families, tier, seed, log):
     os.makedirs(runner.WORK, exist_ok=True)
     res = {"calls": 0, "mismatches": [], "families": {}, "samples": []}
     for fam in fams:
+        if fam == "config":
+            run_config_family(tier, r, res)
+            continue
+        if fam == "hash":
+            run_hash_family(tier, r, res)
+            continue
         calls = gen_calls(fam, tier, r)
         path = runner.WORK + "/fn-%s-%s.txt" % (pid, fam)
         with open(path, "w") as f:
